@@ -295,8 +295,45 @@ def _base_rules(rng, V, eaves=False):
     return [{"allow": True, "attrs": collections.OrderedDict(sorted(a.items()))} for a in out]
 
 
-def gen_blocks(rng, V, users, extra_users, no_dest):
-    """users: the scenario's client users; extra_users: users only used for connection probes."""
+def _theme_pair(rng, V, theme):
+    """A pair of send rules whose outcome depends on WHO is about to receive the copy:
+    'hub'     <deny Q/>  ... <allow Q send_destination[_prefix]=N/>   only the owner of N may get Q
+    'private' <allow Q/> ... <deny Q send_destination[_prefix]=N/>    the owner of N is shielded from Q
+    N is a name that the scenario gives to a listener / the eavesdropper / an ordinary owner
+    (theme["own"]); Q is a by-value qualifier that the probes hit often (possibly empty)."""
+    name = rng.choice(theme["own"])[0]
+    iface, member, path = rng.choice(V["ifaces"]), rng.choice(V["members"]), rng.choice(V["paths"])
+    q = rng.choice([
+        [("send_interface", iface)], [("send_interface", iface)],
+        [("send_interface", iface), ("send_member", member)],
+        [("send_path", path)],
+        [("send_type", "signal")], [("send_type", "signal")],
+        [("send_type", "method_call")],
+        [("send_type", "signal"), ("send_interface", iface)],
+        [("send_broadcast", "false")],
+        [], [],
+    ])
+    if rng.random() < 0.65:
+        d = ("send_destination", name)
+    else:
+        d = ("send_destination_prefix", rng.choice([x for x in V["prefixes"] if pm.word_prefix(name, x)] or [name]))
+    form = rng.choice(["hub", "private"])
+    wide = q or [rng.choice([("send_destination", "*"), ("send_type", "*")])]
+    if form == "hub":
+        r1 = {"allow": False, "attrs": collections.OrderedDict(wide)}
+        r2 = {"allow": True, "attrs": collections.OrderedDict(q + [d])}
+    else:
+        r1 = {"allow": True, "attrs": collections.OrderedDict(wide)} if rng.random() < 0.7 else None
+        r2 = {"allow": False, "attrs": collections.OrderedDict(q + [d])}
+    return {"form": form, "q": dict(q), "d": list(d)}, r1, r2
+
+
+def gen_blocks(rng, V, users, extra_users, no_dest, eaves=None, theme=None, themed=None):
+    """users: the scenario's client users; extra_users: users only used for connection probes.
+    eaves (default: no_dest): the leading allows favour <allow eavesdrop="true"/>; theme: see
+    _theme_pair(), the pairs that were added are appended to the list `themed`."""
+    if eaves is None:
+        eaves = no_dest
     first = {"ctx": "default", "who": None, "rules": [{"allow": True, "attrs": collections.OrderedDict([("user", "*")])}]}
     blocks = [first]
     # connection rules never name the owner of the bus process (the harness's own first round-trip)
@@ -323,7 +360,7 @@ def gen_blocks(rng, V, users, extra_users, no_dest):
     rng.shuffle(tail)
     blocks = [first] + tail
     total = rng.randint(3, 25)
-    base = _base_rules(rng, V, no_dest)[:total]
+    base = _base_rules(rng, V, eaves)[:total]
     first["rules"] += base
     made = list(base)
     weights = [4 if b is first else 2 for b in blocks]
@@ -366,6 +403,17 @@ def gen_blocks(rng, V, users, extra_users, no_dest):
                     "attrs": collections.OrderedDict([rng.choice([("user", eu["user"]), ("group", eu["group"])])])}
         b["rules"].append(rule)
         made.append(rule)
+    if theme is not None and theme.get("own") and rng.random() < 0.7:
+        # appended after the random rules: the second rule of a pair is always evaluated after the
+        # first one (same block, or a block later in file order / in a later context than `first`)
+        for _ in range(rng.choice([1, 1, 2])):
+            ent, r1, r2 = _theme_pair(rng, V, theme)
+            b = rng.choices(blocks, weights)[0]
+            if r1 is not None:
+                (b if rng.random() < 0.3 else first)["rules"].append(r1)
+            b["rules"].append(r2)
+            if themed is not None:
+                themed.append(ent)
     blocks = [b for b in blocks if b["rules"]]
     blocks.append(copy.deepcopy(FIXED_TAIL))
     n = 0
@@ -387,7 +435,7 @@ def gen_script(rng, sid, users, tier):
     probes are generated while executing, against the observed state, and recorded into it."""
     nusers = rng.choice([2, 2, 3]) if len(users) >= 3 else 2
     us = rng.sample(users, nusers)
-    eaves = rng.random() < 0.25
+    eaves = rng.random() < 0.3
     owner = [u for u in users if u["uid"] == os.getuid()][0]
     if eaves and owner not in us:
         us[-1] = owner              # only the owner of the bus may add eavesdrop='true' match rules
@@ -420,14 +468,33 @@ def gen_script(rng, sid, users, tier):
     for i in owners:
         clients[i]["owner"] = True
     V = _values(rng)
+    # names that themed destination rules speak about, and who is to own them: mostly connections
+    # that receive copies NOT addressed to them (broadcast listeners, the eavesdropper)
+    if eaves and rng.random() < 0.75:
+        clients[-1]["owner"] = True
+    theme = None
+    if rng.random() < 0.8:
+        own = []
+        for name in rng.sample(V["names"], rng.choice([1, 2, 2, 3])):
+            r = rng.random()
+            if eaves and r < 0.55:
+                who = ncl - 1
+            elif r < 0.85:
+                who = rng.choice(listeners)
+            else:
+                who = rng.choice(active)
+            own.append([name, who])
+        theme = {"own": own}
     nst = rng.choice([1, 2, 2, 3])
     stages = []
     for si in range(nst):
+        themed = []
         stages.append({"mode": "fresh" if si == 0 else "reload",
-                       "blocks": gen_blocks(rng, V, us, extra, eaves),
+                       "blocks": gen_blocks(rng, V, us, extra, False, eaves=eaves, theme=theme, themed=themed),
+                       "themed": themed,
                        "nops": rng.randint(100, 200) if tier == "quick" else rng.randint(100, 300),
                        "ops": []})
-    return {"id": sid, "clients": clients, "extra_users": extra, "V": V, "stages": stages}
+    return {"id": sid, "clients": clients, "extra_users": extra, "V": V, "theme": theme, "stages": stages}
 
 
 # -------------------------------------------------------------------------------------- executor
@@ -635,11 +702,12 @@ class Scn(object):
     # -- op generation ------------------------------------------------------------------------
     def setup_ops(self, rng, si):
         ops = []
-        owners = [i for i in self.active() if self.meta(i)["owner"]] or self.active()
+        owners = [i for i in self.live() if self.meta(i)["owner"]] or self.active()
+        themed = dict((n, c) for n, c in ((self.script.get("theme") or {}).get("own") or []))
         if si == 0:
             for n in self.V["names"]:
                 k = 2 if n.endswith(".q") else rng.choice([1, 1, 1, 2])
-                who = [rng.choice(owners)]
+                who = [themed[n] if n in themed else rng.choice(owners)]
                 if k == 2:
                     oth = [i for i in self.active() if i != who[0]]
                     who.append(rng.choice([i for i in owners if i != who[0]] or oth))
@@ -650,21 +718,6 @@ class Scn(object):
                 ops.append({"op": "own", "c": rng.choice(self.active()), "name": rng.choice(self.V["names"]),
                             "flags": rng.choice([0, 4])})
         return ops
-
-    def bcast_ok(self, c):
-        """silent point 6: the sender's list names no destination that a listener owns."""
-        owned = set()
-        for i in self.listeners():
-            owned |= set(n for n in self.names_of(i) if not n.startswith(":"))
-        for r in self.eff[c]:
-            a = r["attrs"]
-            d = a.get("send_destination")
-            if d not in (None, "*") and d in owned:
-                return False
-            p = a.get("send_destination_prefix")
-            if p is not None and any(pm.word_prefix(n, p) for n in owned):
-                return False
-        return True
 
     def gen_op(self, rng):
         r = rng.random()
@@ -679,13 +732,6 @@ class Scn(object):
         op = {"op": "msg", "c": rng.choice(act), "flags": 0, "nfds": 1 if rng.random() < 0.2 else 0,
               "path": None, "iface": None, "member": None, "error": None, "reply": None}
         k = rng.choices(["bcast", "usig", "call", "driver", "reply"], [20, 10, 30, 7, 33])[0]
-        if k == "bcast":
-            ok = [c for c in act if self.bcast_ok(c)]
-            if ok:
-                op["c"] = rng.choice(ok)
-            else:
-                self.part.count("broadcast-skipped(silent point 6)")
-                k = "usig"
         if k == "reply":
             sub = rng.random()
             ref = None
@@ -738,6 +784,12 @@ class Scn(object):
         op["path"] = rng.choice(V["paths"])
         op["member"] = rng.choice(V["members"])
         op["iface"] = rng.choice(V["ifaces"]) if (op["type"] == "signal" or rng.random() < 0.75) else None
+        themed = self.script["stages"][self.si].get("themed")
+        if themed and rng.random() < 0.4:
+            q = rng.choice(themed)["q"]
+            op["iface"] = q.get("send_interface", op["iface"])
+            op["member"] = q.get("send_member", op["member"])
+            op["path"] = q.get("send_path", op["path"])
         if k == "bcast":
             op["dest"] = None
             return op
@@ -827,6 +879,25 @@ class Scn(object):
             self.part.count("owner-rule-decided:via-queued-ownership-only")
         if addressed_name is not None and addressed_name not in hit:
             self.part.count("owner-rule-decided:via-other-name-than-addressed")
+
+    def note_eavesdropped_copy(self, v, s_addr, enames):
+        """Evidence for the copy of a DELIVERED unicast message that an eavesdropper would get: is
+        it the sender's send rules, seen with the eavesdropper's names, that keep it away?"""
+        p = self.part
+        if not v.send_denied:
+            return
+        p.count("eavesdropped-copy:send-rules-deny-it-for-the-eavesdropper")
+        if v.recv_denied:
+            return
+        # the eavesdropper's own receive rules do not deny for sure: only the send rules stand between
+        p.count("eavesdropped-copy:withheld-by-send-rules-only")
+        a = v.send.rule["attrs"] if v.send.rule is not None else {}
+        d, pre = a.get("send_destination"), a.get("send_destination_prefix")
+        own = [n for n in enames if not n.startswith(":")]
+        if (d not in (None, "*") and d in own) or (pre is not None and any(pm.word_prefix(n, pre) for n in own)):
+            p.count("eavesdropped-copy:withheld-by-destination-rule-naming-the-eavesdropper")
+        elif pm.names_destination_rule(s_addr.rule):
+            p.count("eavesdropped-copy:withheld-because-the-allow-names-only-the-addressee")
 
     def exec_own(self, op):
         c, name = op["c"], op["name"]
@@ -982,6 +1053,11 @@ class Scn(object):
         snames = self.names_of(c)
         eav = [i for i in self.eaves()]
 
+        def queued_for_addressed(j):
+            return dest is not None and dest["kind"] == "name" and j in self.registry.get(dest["name"], [])
+
+        # silent point 6 (resolved): the sender's send rules are evaluated once per prospective
+        # recipient - addressee, every broadcast recipient, every eavesdropper - with ITS names
         def predict(eff):
             must, mustnot, detail = set(), set(), {}
             if addressed is None:
@@ -1002,7 +1078,9 @@ class Scn(object):
                     if j in must:
                         continue
                     if j in eav and ok and j != c:
-                        if pm.must_not_eavesdrop(eff[c], eff[j], msg, snames, self.names_of(j)):
+                        v = pm.eavesdrop_verdict(eff[c], eff[j], msg, snames, self.names_of(j), queued_for_addressed(j))
+                        detail[("eaves", j)] = v
+                        if v.must_not:
                             mustnot.add(j)
                     else:
                         mustnot.add(j)
@@ -1041,6 +1119,17 @@ class Scn(object):
                 key = dev or "decision-differs:%s:%s" % (side, dd.label())
                 model = {"send": {"allowed": s.allowed, "rule": s.rule}, "receive": {"allowed": r.allowed, "rule": r.rule},
                          "requested_reply": requested}
+            elif ("eaves", w) in detail:
+                # the copy for an eavesdropper: which of the two rule lists keeps it away
+                v = detail[("eaves", w)]
+                side, dd = ("send", v.send) if v.send_denied else ("receive", v.recv)
+                key = dev or "eavesdropper-received-although-denied:%s:%s" % (side, dd.label())
+                model = {"must_receive": sorted(must), "must_not_receive": sorted(mustnot),
+                         "eavesdropper": {"send_rules_of_sender_with_eavesdropper_as_receiver":
+                                          {"denied_for_sure": v.send_denied, "allowed": v.send.allowed, "rule": v.send.rule},
+                                          "receive_rules_of_eavesdropper":
+                                          {"denied_for_sure": v.recv_denied, "allowed": v.recv.allowed, "rule": v.recv.rule},
+                                          "queued_for_addressed_name": queued_for_addressed(w)}}
             else:
                 key = dev or ("eavesdropper-received-although-denied" if w in eav else "delivered-to-bystander")
                 model = {"must_receive": sorted(must), "must_not_receive": sorted(mustnot)}
@@ -1071,9 +1160,10 @@ class Scn(object):
                 self.note_decision("receive", r, shape)
                 self.note_registry_shape(r, snames, None)
             for j in eav:
-                if j != c and delivered:
+                if j != c and delivered and ("eaves", j) in detail:
                     self.part.count("eavesdropper:" + ("must-not-receive(confirmed)" if j in mustnot else
                                                        "unjudged(silent point 4/8):%s" % ("got" if got.get(j) else "not-got")))
+                    self.note_eavesdropped_copy(detail[("eaves", j)], s, self.names_of(j))
             if len(self.part.samples) < 6 and s.n >= 3:
                 self.part.sample({"kind": shape, "sender": self.meta(c)["user"], "message": msg, "requested_reply": requested,
                                   "send": [s.allowed, s.label(), self.where("send", s)], "receive": [r.allowed, r.label(), self.where("receive", r)],
@@ -1084,8 +1174,22 @@ class Scn(object):
                 return
             for i, (s, r) in detail.items():
                 self.note_decision("send", s, shape)
+                self.note_registry_shape(s, self.names_of(i), None)
                 if s.allowed:
                     self.note_decision("receive", r, shape)
+                # would the outcome for this recipient be another one if the destination-qualified
+                # rules were passed over (what a bus does that forgets who the recipient is)?
+                if pm.names_destination_rule(s.rule):
+                    self.part.count("broadcast-recipient:send-decided-by-destination-rule:" + ("allowed" if s.allowed else "denied"))
+                if pm.check_send(self.eff[c], msg, set(), False).allowed != s.allowed:
+                    self.part.count("broadcast-recipient:destination-rules-change-the-send-decision")
+                    if r.allowed:
+                        self.part.count("broadcast-recipient:destination-rules-change-the-delivery:" +
+                                        ("delivered-only-thanks-to-them" if s.allowed else "withheld-only-because-of-them"))
+                    if self.meta(i)["listen"] == "eavesdrop":
+                        self.part.count("broadcast-recipient:destination-rules-change-the-send-decision:recipient-is-the-eavesdropper")
+            if len(set(s.allowed for s, _ in detail.values())) == 2:
+                self.part.count("broadcast:send-rules-split-the-recipients")
             self.part.count("broadcast-recipients-judged", len(detail))
 
     # -- driver loop ----------------------------------------------------------------------------
